@@ -281,6 +281,13 @@ func (r *run) open(a *actor, e Ev) {
 			return
 		}
 	}
+	if a.realtime && r.cfg.Colls > 1 {
+		// with several collections the plan's idea of who created a key first does not hold per collection
+		mode = "soc"
+		if have := r.typeOfKey(a.collection, key); have != "" && have != kind {
+			return
+		}
+	}
 	if a.realtime && r.res.Probes["reset"] > 0 {
 		// After a reset the plan's idea of which keys exist is void. A realtime client whose entry is
 		// refused (create of an existing key, subscribe to a missing one) re-sends the refused request
